@@ -60,6 +60,29 @@ Definition w_state_limit0_rev := [pub "a" "k1" "d1" "N0"; MReadState "a" (Some (
 Lemma state_limit0_rev_differs : redis_map_run cfP w_state_limit0_rev <> mem_map_run cfP w_state_limit0_rev.
 Proof. differ. Qed.
 
+(* ephemeral (streamless) channels have no meta key on Redis: every result carries the epoch of that
+   call (fresh for Publish, none for ReadState); memory keeps one epoch per channel *)
+Definition cfE := mkMC 1 3600000 0 0 0 false.
+Definition w_ephemeral_epoch := [pub "a" "k1" "d1" "N0"; pub "a" "k2" "d2" "N1"; rd_state "a" "N2"].
+Lemma ephemeral_epoch_differs : redis_map_run cfE w_ephemeral_epoch <> mem_map_run cfE w_ephemeral_epoch.
+Proof. differ. Qed.
+
+(* KeyMode is only evaluated inside the "meta_key ~= ''" block of map_broker_add.lua: on an
+   ephemeral (streamless) channel "if_exists" / "if_new" are ignored by Redis *)
+Definition w_ephemeral_keymode := [MPublish "a" "k1" (mkMP "" 0 "d1" false 0 "" 0 "if_exists" false None) "N0" 1000].
+Lemma ephemeral_keymode_differs :
+  redis_map_run cfE w_ephemeral_keymode = [MUpd 0 "N0" false "" None] /\
+  mem_map_run cfE w_ephemeral_keymode = [MUpd 0 "N0" true "key_not_found" None].
+Proof. vm_compute. split; reflexivity. Qed.
+
+(* Clear leaves the idempotency result keys in Redis: a publish with the same idempotency key after
+   Clear is suppressed with the OLD position and its data is lost; memory drops its result cache *)
+Definition poi (d i : string) := mkMP i 0 d false 0 "" 0 "" false None.
+Definition w_clear_idem :=
+  [MPublish "a" "k1" (poi "d1" "i1") "N0" 1000; MClear "a"; MPublish "a" "k1" (poi "d2" "i1") "N2" 1000; rd_state "a" "N3"].
+Lemma clear_idem_differs : redis_map_run cfP w_clear_idem <> mem_map_run cfP w_clear_idem.
+Proof. differ. Qed.
+
 (* ReadState on a missing channel with a Revision whose epoch is empty *)
 Definition w_state_missing_rev := [MReadState "a" (Some (0%N, "")) (-1) "" false "N0" "N0"].
 Lemma state_missing_rev_differs : redis_map_run cfP w_state_missing_rev <> mem_map_run cfP w_state_missing_rev.
